@@ -5,6 +5,7 @@ package badger
 import (
 	"os"
 
+	"github.com/dgraph-io/badger/v4/pb"
 	"github.com/dgraph-io/badger/v4/vhook"
 	"github.com/dgraph-io/ristretto/v2/z"
 )
@@ -61,3 +62,35 @@ func (db *DB) verifDoWritesChoice(pendingCh chan struct{}, lc *z.Closer) (*reque
 		return nil, 3
 	}
 }
+
+// VerifManifestFile gives the simulation harness access to the MANIFEST code
+// (open / add change sets / close) without a DB around it.
+type VerifManifestFile struct{ mf *manifestFile }
+
+// VerifOpenManifest opens or creates dir/MANIFEST with the given rewrite threshold.
+func VerifOpenManifest(dir string, deletionsThreshold int, opt Options) (*VerifManifestFile, Manifest, error) {
+	mf, m, err := helpOpenOrCreateManifestFile(dir, false, opt.ExternalMagicVersion, deletionsThreshold, opt)
+	if err != nil {
+		return nil, Manifest{}, err
+	}
+	return &VerifManifestFile{mf: mf}, m, nil
+}
+
+// AddChanges appends one change set through the production addChanges.
+func (v *VerifManifestFile) AddChanges(changes []*pb.ManifestChange, opt Options) error {
+	return v.mf.addChanges(changes, opt)
+}
+
+// Tables returns the in-memory table map of the open MANIFEST.
+func (v *VerifManifestFile) Tables() map[uint64]TableManifest {
+	v.mf.appendLock.Lock()
+	defer v.mf.appendLock.Unlock()
+	out := make(map[uint64]TableManifest, len(v.mf.manifest.Tables))
+	for id, tm := range v.mf.manifest.Tables {
+		out[id] = tm
+	}
+	return out
+}
+
+// Close closes the MANIFEST file.
+func (v *VerifManifestFile) Close() error { return v.mf.close() }
